@@ -116,6 +116,8 @@ def generate(rng, config):
                 cur[0] = cur[1] = max(cur[0], 40)
         else:
             ops.append({"op": "noop_read"})
+        if rng.random() < 0.08:
+            ops.append({"op": "nx_import", "seed": rng.randrange(2 ** 30)})
     case["ops"] = ops
     return case
 
@@ -156,6 +158,68 @@ def _construct(case):
                 ref.add(u, v)
         return CompleteBipartiteGraph(L, R), ref
     return BipartiteGraph(L, R), RefBipartite(L, R)
+
+
+def _nx_import(klass, ref, seed, bad, bad_exc, ctx):
+    """from_networkx of a networkx graph holding the model's edges, with
+    nodes inserted in arbitrary order and edges in arbitrary orientation."""
+    import random as _r
+    import networkx
+    rr = _r.Random(seed)
+    E = ref.edges()
+    if ref.kind == "bipartite":
+        N = networkx.Graph()
+        left = [("L", u) for u in range(1, ref.L + 1)]
+        right = [("R", v) for v in range(1, ref.R + 1)]
+        nodes = left + right
+        rr.shuffle(nodes)
+        for x in nodes:
+            N.add_node(x, bipartite=0 if x[0] == "L" else 1)
+        es = [(("L", u), ("R", v)) for u, v in E]
+        rr.shuffle(es)
+        for a, b in es:
+            if rr.random() < 0.5:
+                a, b = b, a
+            N.add_edge(a, b)
+        # numbering inside each side follows the node order of the input
+        lorder = [x for x in N.nodes() if x[0] == "L"]
+        rorder = [x for x in N.nodes() if x[0] == "R"]
+        li = {x: i for i, x in enumerate(lorder, start=1)}
+        ri = {x: i for i, x in enumerate(rorder, start=1)}
+        want = sorted((li[("L", u)], ri[("R", v)]) for u, v in E)
+        from cnfgen.graphs import BipartiteGraph
+        r = call(BipartiteGraph.from_networkx, N)
+        if r[0] == "exc":
+            bad_exc("from_networkx-any-node-order", r[1])
+        B = r[1]
+        got = [tuple(e) for e in B.edges()]
+        if (B.left_order(), B.right_order()) != (ref.L, ref.R) or \
+                got != want:
+            bad("from_networkx-any-node-order", "nodes %r edges %r gave "
+                "(%d,%d) %r, expected %r" %
+                (list(N.nodes()), list(N.edges()), B.left_order(),
+                 B.right_order(), got, want))
+    else:
+        N = networkx.DiGraph() if ref.kind == "digraph" else networkx.Graph()
+        nodes = list(range(1, ref.n + 1))
+        rr.shuffle(nodes)
+        N.add_nodes_from(nodes)
+        es = list(E)
+        rr.shuffle(es)
+        for a, b in es:
+            if ref.kind == "simple" and rr.random() < 0.5:
+                a, b = b, a
+            N.add_edge(a, b)
+        r = call(klass.from_networkx, N)
+        if r[0] == "exc":
+            bad_exc("from_networkx-any-node-order", r[1])
+        got = [tuple(e) for e in r[1].edges()]
+        if r[1].number_of_vertices() != ref.n or got != E:
+            bad("from_networkx-any-node-order", "nodes %r edges %r gave %d "
+                "vertices %r, expected %r" %
+                (list(N.nodes()), list(N.edges()),
+                 r[1].number_of_vertices(), got, E))
+    ctx.probe("networkx import with arbitrary node order")
 
 
 def execute(case, ctx):
@@ -259,6 +323,8 @@ def execute(case, ctx):
                     ctx.probe("vertex count raised")
                 else:
                     refused += 1
+        elif kind == "nx_import":
+            _nx_import(type(G), ref, op["seed"], bad, bad_exc, ctx)
         ctx.log(i, kind, {k: v for k, v in op.items() if k != "op"},
                 ref.state() != before)
         graphviews.compare(G, ref, bad, bad_exc, deep=(i % 4 == 0 or
